@@ -97,6 +97,13 @@ def run(ctx):
     nvalues = sum(1 for x in data["exprs"] if isinstance(x["abs"], list) and x["abs"][1] is not None)
     ctx.note(f"validate: type table {len(data['table'])} cells: {len(tviol)} disagree; {len(exprs)} expressions x valuations "
              f"({nvalues} abstract values) against exact evaluation in Coq: {len(vviol)} wrong")
+    # ... and, values supplied or not, its class is the class the real DSL gives the same expression
+    cviol = [i for i, o in enumerate(data["exprs"])
+             if o["real"] and not o["real"].startswith("non-nada") and not (isinstance(o["abs"], list) and o["abs"][0] == o["real"])]
+    ctx.note(f"validate: {len(cviol)} of {sum(1 for o in data['exprs'] if o['real'])} expressions the real DSL accepts get another class (or none) under the abstract classes with concrete values")
+    for i in cviol[:5]:
+        vlib.report_failure(ctx, "C15/type-with-values", f"the real DSL types {exprs[i]} as {data['exprs'][i]['real']}, abstract execution with values {vals[i]} gives {data['exprs'][i]['abs']}",
+                            dict(case=dict(kind="expression", expr=exprs[i], valuation=[str(v) for v in vals[i]]), observed=data["exprs"][i]))
     for i in vviol[:5]:
         vlib.report_failure(ctx, "C15/value", f"abstract value differs from exact evaluation: {exprs[i]} with {vals[i]} -> {data['exprs'][i]['abs']}",
                             dict(case=dict(kind="expression", expr=exprs[i], valuation=[str(v) for v in vals[i]]), observed=data["exprs"][i]))
